@@ -97,6 +97,8 @@ def _differential(prop, spec, tier):
     jobs, meta = [], []
     for c in [base] + cfgs:
         for (src, parts, libs, flags) in table:
+            if c in spec.get('not_instantiable', {}).get(src, {}):
+                continue      # GLM itself does not compile in this cell (recorded with the diagnostic in the property table)
             for k in (parts if parts is not None else [None]):
                 fl = tuple(flags) + ((f'-DGLMX_PART={k}',) if k is not None else ())
                 tag = os.path.splitext(os.path.basename(src))[0] + (f'p{k}' if k is not None else '')
@@ -143,7 +145,7 @@ def _differential(prop, spec, tier):
                 v['kf'] = kid; extra_known.append(v)
             else:
                 extra_viol.append(v)
-    cov = {'configurations_compared_with_baseline': cfgs, 'baseline': base, 'op_digests_compared': compared, 'op_digests_differing': differing,
+    cov = {'uninstantiable_cells': {f'{s_} @ {c_}': why for s_, d_ in spec.get('not_instantiable', {}).items() for c_, why in d_.items()}, 'configurations_compared_with_baseline': cfgs, 'baseline': base, 'op_digests_compared': compared, 'op_digests_differing': differing,
            'operation_table': [f"{s_}{'[parts ' + ','.join(map(str, p_)) + ']' if p_ is not None else ''}" for (s_, p_, l, f) in table]}
     return results, extra_viol, extra_known, cov
 
@@ -195,12 +197,14 @@ def run_sanitize(prop, spec, tier, known_ids, t0, args):
     table = spec['table_thorough'] if tier == 'thorough' else spec['table_quick']
     cfgs = spec['configs_thorough'] if tier == 'thorough' else spec['configs_quick']
     jobs, meta = [], []
+    by_cfg = spec.get('table_by_config_' + tier, {})      # SIMD-aligned sanitizer builds run the drivers whose default-qualified types become aligned
     for c in cfgs:
-        for (src, parts, libs, flags) in table:
+        for (src, parts, libs, flags) in by_cfg.get(c, table):
             for k in (parts if parts is not None else [None]):
                 fl = tuple(flags) + ((f'-DGLMX_PART={k}',) if k is not None else ())
                 tag = os.path.splitext(os.path.basename(src))[0] + (f'p{k}' if k is not None else '')
                 jobs.append((src, c, fl, tag, (), tuple(libs))); meta.append((c, src, k))
+    table = table + [row for c in cfgs for row in by_cfg.get(c, []) if row not in table]
     bins = G.build_many(jobs)
     env = {'UBSAN_OPTIONS': 'halt_on_error=0:print_stacktrace=0:report_error_type=1', 'ASAN_OPTIONS': 'halt_on_error=0:detect_leaks=0:detect_stack_use_after_return=0'}
     from concurrent.futures import ThreadPoolExecutor
@@ -293,10 +297,14 @@ _C20_TABLE_Q = [('drivers/c01.cpp', [0, 3, 5, 7, 9, 11, 13], [], []), ('drivers/
 _C20_TABLE_T = [('drivers/c01.cpp', list(range(15)), [], [])] + _C20_TABLE_Q[1:7] + [('drivers/c02.cpp', list(range(7)), [], []), ('drivers/c12.cpp', None, [], []), ('drivers/c13.cpp', None, [], []), ('drivers/c19.cpp', None, [], []),
                 ('drivers/c04.cpp', None, [], []), ('drivers/c08.cpp', None, [], ['-DC08_HAVE_INFINITEPERSPECTIVE_LH_RH']), ('drivers/c09.cpp', None, [], ['-DC09_RECOMPOSE_DOUBLE']), ('drivers/c10.cpp', None, [], [])]
 
+_C17_FLAGS = ['-DC17_HAVE_ALIGNED_UVEC2_SWIZZLE', '-DC17_HAVE_ALIGNED_VEC2_3LETTER', '-DC17_HAVE_VEC4_SSSV1']
+_C20_ALIGNED_Q = [('drivers/c02.cpp', [1], [], []), ('drivers/c12.cpp', None, [], []), ('drivers/c13.cpp', None, [], []), ('drivers/c06.cpp', None, [], [])]
+_C20_ALIGNED_T = _C20_ALIGNED_Q + [('drivers/c02.cpp', [0, 2], [], []), ('drivers/c04.cpp', None, [], []), ('drivers/c09.cpp', None, [], ['-DC09_RECOMPOSE_DOUBLE']), ('drivers/c10.cpp', None, [], []), ('drivers/c19.cpp', None, [], []), ('drivers/c08.cpp', None, [], ['-DC08_HAVE_INFINITEPERSPECTIVE_LH_RH'])]
+
 PROPS = {
- 'C17': dict(src='drivers/c17.cpp', level='model_checking', mc=mc_c17, parts=19, configs=['default', 'swizzle', 'intr_sse2', 'swizzle_intr_clang'],
-   parts_by_config={'default': [0] + list(range(4, 14)), 'swizzle': list(range(14)), 'intr_sse2': [0] + list(range(4, 14)), 'swizzle_intr_clang': list(range(19))},   # the other parts are empty in that configuration
-   flags=['-DC17_HAVE_ALIGNED_UVEC2_SWIZZLE', '-DC17_HAVE_ALIGNED_VEC2_3LETTER', '-DC17_HAVE_VEC4_SSSV1'],
+ 'C17': dict(src='drivers/c17.cpp', level='model_checking', mc=mc_c17, parts=19, configs=['default', 'swizzle', 'intr_sse2', 'swizzle_intr_clang', 'quat_ctor_xyzw', 'quat_wxyz'],
+   parts_by_config={'default': [0] + list(range(4, 14)), 'swizzle': list(range(14)), 'intr_sse2': [0] + list(range(4, 14)), 'swizzle_intr_clang': list(range(19)), 'quat_ctor_xyzw': [0], 'quat_wxyz': [0]},   # the two quaternion-order macros: part 0 holds the quaternion constructors   # the other parts are empty in that configuration
+   flags=_C17_FLAGS,
    technique='exhaustive enumeration of the program space: every 2-/3-/4-letter swizzle name over xyzw, rgba, stpq for source lengths 2-4 in the three implementations (member functions, operator/union proxies on packed and aligned types, gtx free functions), all write sequences over duplicate-free names up to a depth against an array model, and every constructor signature of vec1-4 / mat / qua enumerated from the declared overload shapes',
    text='Reads: the index tuple is derived from the NAME (letter -> index) by macro pasting, independent of GLM; every valid name x tag patterns, compared bit for bit. Writes (explicit-state): all sequences of 14 write forms (=vec, =scalar, += -= *= /=, cross-swizzle and self-aliasing forms) over duplicate-free names, array reference model after every step, exactly the named components change. Constructors: 1236 (2598 with aligned types) vector signatures per destination type x value patterns that make static_cast observable, all 49 (U,T) cross-type pairs, cross-qualifier, matrix diagonal/scalars/columns/cross-type, quaternion forms; four build configurations (default, GLM_FORCE_SWIZZLE, intrinsics, operator swizzles).',
    rule='names: 28/117/336 per source length and letter set; write sequences depth <=3 (L2), <=2 (L3, L4) quick, L3 depth 3 thorough; constructor signatures enumerated by templates from the overload shapes; inadmissible (pattern, U, T) conversions are counted trivial.'),
@@ -310,7 +318,9 @@ PROPS = {
    text='(b) inside each build (-msse2 ... -mavx2 -mfma, both quaternion layouts, g++ and clang++) every operation that has or routes through an Aligned=true specialisation is run on aligned_{highp,mediump,lowp} and packed operands: identical values for integer/bitwise/comparison/selection/conversion/rounding/single-rounding operations, c.u.sum|terms| for multi-term expressions, 2^-11 relative for lowp reciprocal/rsqrt kernels, identical branch decisions for refract/faceforward/==. Aligned vec3 operands are produced through every API-reachable construction path so that the hidden fourth lane is exercised. (a) the packed path of every ISA build is compared with the GLM_FORCE_PURE build by per-operation observation digests.',
    rule='SPEC^n products, EDGE lattices for unary ops, {-1,0,1,2}^8 vector grids, all {0,1}^16 matrix patterns x 3 variants, unit-vector x eta grids incl. the critical ratio and its float neighbours; 14 parts x ISA configurations.'),
  'C20': dict(run=run_sanitize, replay=replay_sanitize, level='exploration', src='drivers/c01.cpp', table_quick=_C20_TABLE_Q, table_thorough=_C20_TABLE_T,
-   configs_quick=['ubsan'], configs_thorough=['ubsan', 'ubsan_avx2'], cap_quick=20000, cap_thorough=200000,
+   configs_quick=['ubsan', 'ubsan_sse2_defaligned', 'ubsan_swizzle_intr'], configs_thorough=['ubsan', 'ubsan_avx2', 'ubsan_sse2_defaligned', 'ubsan_avx2_defaligned', 'ubsan_swizzle_intr'], cap_quick=20000, cap_thorough=200000,
+   table_by_config_quick={'ubsan_sse2_defaligned': _C20_ALIGNED_Q, 'ubsan_swizzle_intr': [('drivers/c17.cpp', [7, 9, 11, 16], [], _C17_FLAGS)]},
+   table_by_config_thorough={'ubsan_sse2_defaligned': _C20_ALIGNED_T, 'ubsan_avx2_defaligned': _C20_ALIGNED_T, 'ubsan_swizzle_intr': [('drivers/c17.cpp', list(range(19)), [], _C17_FLAGS)]},
    technique='exhaustive enumeration of the other properties\' input domains (restricted by each function\'s documented precondition) through clang UndefinedBehaviorSanitizer + AddressSanitizer instrumented builds of the same drivers; the sanitizer runtime is the oracle and its report hook attributes every report to the (operation, input) being evaluated',
    text='The drivers of the other properties are rebuilt with -fsanitize=undefined,float-cast-overflow,address -fsanitize-recover=all and their domains are enumerated again (domains larger than the cap on the sub-lattice of every s-th index); the weak hooks __ubsan_on_report / __asan_on_error record kind, file, line and the current (op, input), so every distinct undefined operation inside a glm/ source file within a documented domain becomes a replayable violation. Known findings are keyed by (file, line, kind).',
    rule='operation table x documented-precondition filter of each driver (out-of-domain inputs are skipped before GLM is called) x sanitizer configurations {clang pure, clang AVX2 in thorough}; evaluations are instrumented executions.'),
@@ -324,6 +334,7 @@ PROPS = {
    table_quick=_C15_TABLE_Q, table_thorough=_C15_TABLE_T,
    configs_quick=['cxx98', 'combo_types', 'combo_env', 'O0', 'O3'],
    configs_thorough=['cxx98', 'cxx03', 'cxx11', 'cxx14', 'cxx17', 'cxx20', 'cxx_unknown', 'inline', 'ctor_init', 'explicit_ctor', 'size_t_length', 'xyzw_only', 'swizzle', 'swizzle_intr', 'unrestricted_gentype', 'quat_wxyz', 'pure', 'compiler_unknown', 'platform_unknown', 'arch_unknown', 'O0', 'O3', 'clang', 'clang_O0', 'combo_types', 'combo_env'],
+   not_instantiable={'drivers/c19.cpp': {'xyzw_only': 'glm/gtx/color_space.inl and color_space_YCoCg.inl name the components .r .g .b, which GLM_FORCE_XYZW_ONLY removes: the header is ill-formed in this configuration', 'combo_types': 'contains GLM_FORCE_XYZW_ONLY (see xyzw_only)'}},
    technique='exhaustive differential exploration over the configuration lattice: the same operation table (the drivers of the other properties, with their complete quick/thorough input domains) is compiled once per non-semantic configuration and every per-operation observation digest must equal the baseline build; a differing digest is bisected to the first differing input',
    text='Every non-semantic macro / language level / optimisation level / compiler is one point of the configuration lattice and one separate build of the same driver sources from the working tree. Each driver op accumulates a digest of every value GLM returned on every enumerated input (C01: every scalar and vector result of every function x L x T x Q; C11/C14: the std-versus-fallback sensitive functions on the float lattices; integer, packing, quaternion and geometric drivers). Digest equality with the baseline is required for every (op, configuration); results are expressed through named members so storage-order switches are compared by value.',
    rule='configurations x operation table (see coverage.operation_table) x the quick (thorough) domains of those drivers; evaluations are summed over all builds; a case is non-trivial as defined by its driver.'),
